@@ -380,3 +380,30 @@ pub fn show(args: &Args) {
         }
     }
 }
+
+/// trace writer shared with C20 (same record format, so the same comparator applies)
+pub struct TraceSink {
+    w: W,
+}
+impl TraceSink {
+    pub fn create(path: &str) -> TraceSink {
+        let mut w = W { buf: Vec::new(), f: std::fs::File::create(path).unwrap() };
+        w.u(MAGIC);
+        w.u(0);
+        TraceSink { w }
+    }
+    pub fn record(&mut self, id: u64, seed: u64, step: u64, o: &Out) {
+        // `Out` is moved into a Result-shaped record without cloning the words
+        let tmp = Out { words: o.words.clone(), kinds: o.kinds.clone(), text: o.text.clone() };
+        self.w.rec(id, seed, step, &Ok(tmp), &[], false, 0.0);
+    }
+    pub fn finish(&mut self) {
+        let b = std::mem::take(&mut self.w.buf);
+        self.w.f.write_all(&b).unwrap();
+    }
+}
+pub fn cap_of<T: Cap>(v: &T) -> Out {
+    let mut o = Out::new();
+    v.cap(&mut o);
+    o
+}
